@@ -214,6 +214,8 @@ def setup(concepts, spec):
     lm = concepts.lattice_members.Concept
     attach.attach(lm, 'join', ConceptOp('j', cap))      # also replaces __or__
     attach.attach(lm, 'meet', ConceptOp('m', cap))      # also replaces __and__
+    common.attach_overrides(concepts, lm, ['join', '__or__'], lambda: ConceptOp('j', cap))
+    common.attach_overrides(concepts, lm, ['meet', '__and__'], lambda: ConceptOp('m', cap))
     la = concepts.lattices.Lattice
     attach.attach(la, 'join', LatticeOp('j', cap))
     attach.attach(la, 'meet', LatticeOp('m', cap))
